@@ -406,10 +406,152 @@ pub fn gen_c11(rng: &mut Rng, thorough: bool) -> History {
         }
         return em.finish(buggify, 0, 2_000_000_000, format!("c11 power-of-two scale 2^{}", k));
     }
+    if rng.chance(1, 12) && w <= 12 && h <= 12 && w > 0 && h > 0 {
+        // "a pixel's colour is the source evaluated at T^-1 of the pixel centre": under the
+        // minifying transform device = user/k + (k-1)/(2k) the centre of device pixel (x, y) is
+        // the user point (k x + 1/2, k y + 1/2), which is the centre of pixel (k x, k y) of the
+        // same picture drawn under the identity. With k a power of two and sources whose own
+        // numbers are dyadic every matrix product is exact, so the colours have to agree bit for
+        // bit (run_c11 does the comparison on targets of its own, see lattice_correspondence)
+        let k = rng.pick(&[2, 4, 8, 16]);
+        em.push(0, Op::SetTransform(lattice_transform(k)));
+        let n = 1 + rng.usize(3);
+        for _ in 0..n {
+            let src = gen_dyadic_source(rng, k * w, k * h);
+            let opts = Opts { blend: if rng.chance(1, 2) { 1 } else { BLEND_SRC_OVER }, alpha: F(if rng.chance(1, 3) { rng.unit() } else { 1. }), aa: !rng.chance(1, 4) };
+            let r = [F(-(k as f32)), F(-(k as f32)), F(((w + 2) * k) as f32), F(((h + 2) * k) as f32)];
+            if rng.chance(1, 2) {
+                em.push(0, Op::FillRect { rect: r, src, opts });
+            } else {
+                em.push(0, Op::Fill { path: PathSpec::new(false, vec![Seg::Rect(r[0], r[1], r[2], r[3])]), src, opts });
+            }
+        }
+        return em.finish(buggify, V11_LATTICE, 2_000_000_000, format!("c11 lattice k={}", k));
+    }
     // start with a transform so that most draws happen under a non-identity CTM
     em.push(0, Op::SetTransform(gen_transform(rng, w, h, false)));
     gen_scene(rng, &mut em, 0, &cfg);
     em.finish(buggify, 0, 2_000_000_000, "c11".to_string())
+}
+
+pub const V11_LATTICE: u32 = 1;
+
+/// device = user / k + (k - 1) / (2 k): exact for k a power of two
+fn lattice_transform(k: i32) -> Mat {
+    let kf = k as f32;
+    let c = (kf - 1.) / (2. * kf);
+    mk::unmat(&raqote::Transform::new(1. / kf, 0., 0., 1. / kf, c, c))
+}
+
+fn lattice_k(ctm: &Mat) -> Option<i32> {
+    [2, 4, 8, 16].iter().copied().find(|k| lattice_transform(*k).iter().zip(ctm.iter()).all(|(a, b)| a.0.to_bits() == b.0.to_bits()))
+}
+
+/// Non-solid sources all of whose numbers are dyadic with few bits (positions multiples of 1/4,
+/// lengths and radii powers of two, own transforms made of 0 and 2^n): every matrix product and
+/// every pixel-centre offset the library forms from them and a lattice transform is exact. The
+/// linear parts are kept non-negative: sw-composite's float_to_fixed adds 0.5 and truncates
+/// towards zero, so a negative entry comes out one unit of 2^-16 too large, which is multiplied by
+/// different pixel indices in the two renderings (with such entries the colours agree only up to
+/// one or two steps of the colour table - seen while building this oracle).
+fn gen_dyadic_source(rng: &mut Rng, w: i32, h: i32) -> SrcSpec {
+    let q = |rng: &mut Rng, e: i32| F(rng.range(-2 * e, 6 * e) as f32 / 4.);
+    let p2 = |rng: &mut Rng| [q(rng, w), q(rng, h)];
+    let pow2 = |rng: &mut Rng| F((2.0f32).powi(rng.range(1, 7)));
+    let spread = rng.below(3) as u8;
+    let kind = match rng.below(6) {
+        0 => {
+            let start = p2(rng);
+            let len = pow2(rng).0;
+            let end = if rng.chance(1, 2) { [F(start[0].0 + len), start[1]] } else { [start[0], F(start[1].0 + len)] };
+            SrcKind::Linear { stops: gen_stops(rng), spread, start, end }
+        }
+        1 => SrcKind::Radial { stops: gen_stops(rng), spread, center: p2(rng), radius: pow2(rng) },
+        2 => {
+            let r2 = pow2(rng);
+            let r1 = F(r2.0 / (2.0f32).powi(rng.range(1, 3)));
+            let c2 = p2(rng);
+            let c1 = if rng.chance(1, 3) { p2(rng) } else { [F(c2[0].0 + rng.range(-2, 2) as f32 * r1.0 / 4.), F(c2[1].0 + rng.range(-2, 2) as f32 * r1.0 / 4.)] };
+            SrcKind::TwoCircle { stops: gen_stops(rng), spread, c1, r1, c2, r2 }
+        }
+        3 | 4 => {
+            let a0 = rng.range(0, 300) as f32;
+            SrcKind::Sweep { stops: gen_stops(rng), spread, center: p2(rng), a0: F(a0), a1: F(a0 + rng.range(20, 360) as f32) }
+        }
+        _ => {
+            // image: scaled by a power of two (texels several pixels large, or several texels per
+            // pixel), shifted by a dyadic amount, possibly mirrored or with the axes exchanged
+            let sc = (2.0f32).powi(rng.range(-4, 1));
+            let (sx, sy) = (sc, sc * (2.0f32).powi(rng.range(-1, 1)));
+            let (tx, ty) = (rng.range(-8, 8) as f32 / 4., rng.range(-8, 8) as f32 / 4.);
+            let t = if rng.chance(1, 4) { raqote::Transform::new(0., sx, sy, 0., tx, ty) } else { raqote::Transform::new(sx, 0., 0., sy, tx, ty) };
+            SrcKind::Image { img: gen_image(rng), repeat: rng.chance(1, 2), bilinear: rng.chance(1, 2), xf: mk::unmat(&t) }
+        }
+    };
+    // now and then a user-space transform of its own in front (gradients): anisotropic scale,
+    // axis swap, power-of-two scale
+    let user_xf = if !matches!(kind, SrcKind::Image { .. }) && rng.chance(1, 4) {
+        let sc = (2.0f32).powi(rng.range(-2, 2));
+        let t = match rng.below(3) {
+            0 => raqote::Transform::new(sc, 0., 0., 2. * sc, rng.range(-8, 8) as f32, 0.),
+            1 => raqote::Transform::new(0., sc, sc, 0., 0., rng.range(-8, 8) as f32),
+            _ => raqote::Transform::new(sc, 0., 0., sc, rng.range(-8, 8) as f32 / 2., rng.range(-8, 8) as f32 / 2.),
+        };
+        Some(mk::unmat(&t))
+    } else {
+        None
+    };
+    SrcSpec { kind, pre: None, user_xf }
+}
+
+/// Ok(true): every lattice pixel agrees bit for bit; Ok(false): some only within the tolerance of
+/// the fallback (value range of the 3x3 neighbourhood +- 2 per channel); Err: mismatch
+fn lattice_correspondence(src: &SrcSpec, opts: &Opts, k: i32, w: i32, h: i32) -> Result<bool, String> {
+    use raqote::*;
+    let o = DrawOptions { blend_mode: BlendMode::Src, alpha: opts.alpha.0, antialias: if opts.aa { AntialiasMode::Gray } else { AntialiasMode::None } };
+    let source = mk::build_source(src);
+    let (bw, bh) = (k * w, k * h);
+    let kf = k as f32;
+    let mut big = DrawTarget::new(bw, bh);
+    big.fill_rect(-kf, -kf, (bw + 2 * k) as f32, (bh + 2 * k) as f32, &source, &o);
+    let mut small = DrawTarget::new(w, h);
+    small.set_transform(&mk::mat(&lattice_transform(k)));
+    small.fill_rect(-kf, -kf, (bw + 2 * k) as f32, (bh + 2 * k) as f32, &source, &o);
+    let a = big.get_data();
+    let b = small.get_data();
+    let mut exact = true;
+    for y in 0..h {
+        for x in 0..w {
+            let got = b[(y * w + x) as usize];
+            let want = a[(k * y * bw + k * x) as usize];
+            if got == want {
+                continue;
+            }
+            exact = false;
+            for c in 0..4 {
+                let g = (got >> (8 * c)) & 0xff;
+                let (mut lo, mut hi) = (255u32, 0u32);
+                for dy in -1..=1 {
+                    for dx in -1..=1 {
+                        let (xx, yy) = (k * x + dx, k * y + dy);
+                        if xx < 0 || yy < 0 || xx >= bw || yy >= bh {
+                            continue;
+                        }
+                        let v = (a[(yy * bw + xx) as usize] >> (8 * c)) & 0xff;
+                        lo = lo.min(v);
+                        hi = hi.max(v);
+                    }
+                }
+                if g + 2 < lo || g > hi + 2 {
+                    return Err(format!(
+                        "device pixel ({},{}) under device = user/{} + {} is {:08x}; the identity rendering has {:08x} at the same user point (pixel ({},{})) and channel {} within {}..{} around it",
+                        x, y, k, (kf - 1.) / (2. * kf), got, want, k * x, k * y, c, lo, hi
+                    ));
+                }
+            }
+        }
+    }
+    Ok(exact)
 }
 
 fn has_curves(p: &PathSpec) -> bool {
@@ -551,6 +693,21 @@ pub fn run_c11(h: &History, st: &mut Stats) -> Outcome {
                     Err(pi) => {
                         st.abort(&panic_class(&pi));
                         return Outcome::Aborted(format!("similarity reference: {}", panic_desc(&pi)));
+                    }
+                }
+            }
+        }
+        if h.variant & V11_LATTICE != 0 {
+            if let (Op::Fill { src, opts, .. } | Op::FillRect { src, opts, .. }, Some(k)) = (&step.op, lattice_k(&ctm)) {
+                if !src.is_solid() {
+                    match mk::guarded(budget, || lattice_correspondence(src, opts, k, w, p.surfs[si].h())) {
+                        Ok(Ok(true)) => st.count("c11.lattice_correspondence_exact"),
+                        Ok(Ok(false)) => st.count("c11.lattice_correspondence_within_tolerance"),
+                        Ok(Err(d)) => return viol("c11.source-not-sampled-at-inverse-transform-of-pixel-centre", i, d),
+                        Err(pi) => {
+                            st.abort(&panic_class(&pi));
+                            return Outcome::Aborted(format!("lattice reference: {}", panic_desc(&pi)));
+                        }
                     }
                 }
             }
